@@ -301,6 +301,20 @@ func genC14(g *G) {
 		}
 		ds = append(ds, d)
 	}
+	// whole minutes / hours of every magnitude (days, months, centuries) plus or minus a few nanoseconds
+	for _, days := range []int64{1, 30, 100, 194, 195, 200, 365, 1000, 10000, 100000, 106750} {
+		for _, off := range []int64{1, 2, 999, 1000, 1e6, 1e9 - 1, 59e9 + 999999999} {
+			base := days * 24 * 3600e9
+			ds = append(ds, base+off, base-off, -(base + off), base+60e9*7+off, base+3600e9*5+off)
+		}
+	}
+	for i := 0; i < g.N(3000, 100000); i++ {
+		d := g.Rnd.Int64N(153722867)*60e9 + g.Rnd.Int64N(5)
+		if g.Rnd.IntN(2) == 0 {
+			d = -d
+		}
+		ds = append(ds, d)
+	}
 	for _, d := range ds {
 		a := strconv.FormatInt(d, 10)
 		g.Emit("dur", a)
